@@ -45,6 +45,15 @@ BoundsWhy(e) ==
   ELSE IF ~(AllFin(e.clamp) /\ AllFin(e.clamp_assign)) THEN "non-finite-result"
   ELSE "ok"
 
+(* one colour converted to every other type of the universe (hue sweeps over the degenerate boundaries): the targets *)
+(* whose result was not finite and those that panicked must both be empty                                            *)
+FanWhy(e) ==
+  IF ~InDomain(e.from, e.t, e["in"]) THEN "ok"
+  ELSE IF e.panics # <<>> THEN "panic"
+  ELSE IF e.bad # <<>> THEN "non-finite-result"
+  ELSE IF e.n = 0 THEN "no-conversion-exercised"
+  ELSE "ok"
+
 (* generic pre-digested call: e.args = sequence of [node, vals] *)
 FinWhy(e) ==
   IF \E i \in DOMAIN e.args : ~InDomain(e.args[i].node, e.t, e.args[i].vals) THEN "ok"
@@ -91,6 +100,7 @@ PfinWhy(e) ==
 
 Why(e) == CASE e.ev = "walk" -> WalkWhy(e)
             [] e.ev = "bounds" -> BoundsWhy(e)
+            [] e.ev = "fan" -> FanWhy(e)
             [] e.ev = "fin" -> FinWhy(e)
             [] e.ev = "op" -> OpWhy(e)
             [] e.ev \in {"blend", "compose", "custom", "eqn"} -> BlendWhy(e)
